@@ -35,7 +35,7 @@ ToSet(seq) == {seq[i] : i \in DOMAIN seq}
 Debug == "VIP_DEBUG" \in DOMAIN IOEnv /\ IOEnv.VIP_DEBUG = "1"
 Chk(label, cond) == IF cond THEN TRUE ELSE (Debug => PrintT(<<"MISMATCH at line", l, label>>)) /\ FALSE
 AllAspects == {"nodes", "peers", "ledger", "total", "links", "stats", "hosts", "nonce", "noncefull", "time",
-               "auth", "billing", "lowbal", "refused", "withdraw", "sel", "reg", "uri", "exact", "serial", "snapshot"}
+               "auth", "billing", "lowbal", "refused", "withdraw", "sel", "reg", "uri", "exact", "serial", "snapshot", "status"}
 Aspects == CASE Focus = "all"    -> AllAspects
              [] Focus = "nonce"  -> {"nonce"}
              [] Focus = "peers"  -> {"peers"}
